@@ -57,6 +57,29 @@ class Tracer:
                 os.replace(src, dst)
                 tr._after()
 
+            # whatever else a _save may do to the directory is a step of its own, and a point where the process can die
+            @staticmethod
+            def rename(src, dst):
+                tr._point(('rename', src, dst))
+                os.rename(src, dst)
+                tr._after()
+
+            @staticmethod
+            def remove(path_):
+                tr._point(('remove', path_))
+                os.remove(path_)
+                tr._after()
+
+            @staticmethod
+            def unlink(path_):
+                tr._point(('unlink', path_))
+                os.unlink(path_)
+                tr._after()
+
+        for _name in dir(os):
+            if not _name.startswith('__') and not hasattr(OsProxy, _name):
+                setattr(OsProxy, _name, getattr(os, _name))     # everything else: the real thing, untraced
+
         class TracedFile:
             """a text file opened for writing, with the buffering of the real one: data reaches the file when the buffer
             (8 KiB) overflows and when the file is closed; a crash loses what is still buffered"""
